@@ -8,6 +8,7 @@ import (
 	"fmt"
 	"sort"
 	"strings"
+	"sync"
 
 	"gopkg.in/typ.v4/sync2"
 	"verif/harness/core"
@@ -370,7 +371,50 @@ func layout(c *core.Ctx, which int) []CallSpec {
 	}
 }
 
+// stress runs uncontrolled goroutines on one Map (no hook installed): only meaningful in the binary built with
+// the race detector (tier "race"), where any unsynchronised access is reported by the runtime.
+func stress(c *core.Ctx) {
+	for round := 0; round < c.N(12, 12, 12); round++ {
+		cs := Case{Kind: "race-stress"}
+		c.Begin(cs)
+		m := &sync2.Map[int, int]{}
+		var wg sync.WaitGroup
+		for g := 0; g < 8; g++ {
+			wg.Add(1)
+			rng := core.NewRand(c.Seed*1000 + uint64(round*16+g))
+			go func() {
+				defer wg.Done()
+				for i := 0; i < 1500; i++ {
+					k, v := rng.Intn(4), rng.Intn(100)
+					switch rng.Intn(7) {
+					case 0:
+						m.Load(k)
+					case 1:
+						m.Store(k, v)
+					case 2:
+						m.LoadOrStore(k, v)
+					case 3:
+						m.LoadAndDelete(k)
+					case 4:
+						m.Delete(k)
+					case 5:
+						m.Range(func(k, v int) bool { return v%7 != 0 })
+					default:
+						m.Load(k + 4)
+					}
+				}
+			}()
+		}
+		wg.Wait()
+		c.Count("race_stress_rounds")
+	}
+}
+
 func run(c *core.Ctx) {
+	if c.Tier == "race" {
+		stress(c)
+		return
+	}
 	// 1. sequential histories (drive the read/dirty/expunged state machine)
 	for i := c.N(250, 6000, 2000); i > 0; i-- {
 		n := 3 + c.Rng.Size(c.N(60, 200, 120))
